@@ -91,7 +91,7 @@ def witnessState : Exec :=
     sk := { map := [(7, (1, 5))], k := { open_ := [5, 7], epoll := [(7, 1)] } } }
 
 def witnessEnv : RoundEnv :=
-  { beh := fun _ => ⟨.ok [], .fls, [], ⟨[], false⟩⟩, ready := [(7, 1)], arrive := some ⟨5, true⟩, prio := [] }
+  { beh := fun _ => ⟨.ok [(7, 1)], .fls, [], ⟨[], false⟩⟩, ready := [(7, 1)], arrive := some ⟨5, true⟩, prio := [] }
 
 theorem C05_arrive_guard_witness :
     runOnce witnessState witnessEnv = .error (.worksKeyError 5) ∧ ¬ ArriveOk witnessState witnessEnv := by
